@@ -164,6 +164,13 @@ pub fn run(ctx: &Ctx, rep: &mut Report) {
         let e = gen_tree(&mut r, leaves, &mut |r| gen_leaf(r, 30));
         check_tree(&e, &format!("tree:{}", i), &mut r, rep, 8);
     });
+    // stream heavy: many matchers / printers so that identifiers and frame tags go past one digit
+    let n_heavy = ctx.pick(600, 40_000);
+    par_cases(ctx, "heavy", n_heavy, rep, |i, rep| {
+        let mut r = Rng::for_case(ctx.seed, "heavy", i);
+        let e = crate::monitors::c15::gen_resource_heavy(&mut r, i % 4 == 0, false);
+        check_tree(&e, &format!("heavy:{}", i), &mut r, rep, 4);
+    });
     // stream text: the same through the text route
     let n_text = ctx.pick(500, 20_000);
     par_cases(ctx, "text", n_text, rep, |i, rep| {
